@@ -25,9 +25,29 @@ Fixpoint writes_ok (s : string -> option Z) (l1 l2 : list (string * (vexp * (vex
       String.eqb n1 n2 && exp_ok s e1 e2 && exp_ok s a1 a2 && exp_ok s d1 d2 && writes_ok s r1 r2
   | _, _ => false
   end.
+Fixpoint strs_eqb (l1 l2 : list string) : bool :=
+  match l1, l2 with [], [] => true | a :: r1, b :: r2 => String.eqb a b && strs_eqb r1 r2 | _, _ => false end.
+Fixpoint clocking_eqb (l1 l2 : list (string * list string)) : bool :=
+  match l1, l2 with
+  | [], [] => true
+  | (n1, e1) :: r1, (n2, e2) :: r2 => String.eqb n1 n2 && strs_eqb e1 e2 && clocking_eqb r1 r2
+  | _, _ => false
+  end.
+Lemma strs_eqb_sound l1 : forall l2, strs_eqb l1 l2 = true -> l1 = l2.
+Proof.
+  induction l1 as [|a r IH]; destruct l2 as [|b r2]; simpl; try discriminate; auto.
+  intros H. apply andb_prop in H. destruct H as [H1 H2]. apply String.eqb_eq in H1. subst. f_equal. apply IH. exact H2.
+Qed.
+Lemma clocking_eqb_sound l1 : forall l2, clocking_eqb l1 l2 = true -> l1 = l2.
+Proof.
+  induction l1 as [|[n1 e1] r IH]; destruct l2 as [|[n2 e2] r2]; simpl; try discriminate; auto.
+  intros H. apply andb_prop in H. destruct H as [H H3]. apply andb_prop in H. destruct H as [H1 H2].
+  apply String.eqb_eq in H1. apply strs_eqb_sound in H2. subst. f_equal. apply IH. exact H3.
+Qed.
+
 Definition design_eqb (s : string -> option Z) (d1 d2 : design) : bool :=
   pairs_ok s (outputs d1) (outputs d2) && pairs_ok s (next d1) (next d2) &&
-  pairs_ok s (wires d1) (wires d2) && writes_ok s (mem_writes d1) (mem_writes d2).
+  pairs_ok s (wires d1) (wires d2) && writes_ok s (mem_writes d1) (mem_writes d2) && clocking_eqb (clocking d1) (clocking d2).
 
 Definition same_at (e : env) (d1 d2 : design) : Prop :=
   map (evalp e) (outputs d1) = map (evalp e) (outputs d2) /\
@@ -58,9 +78,13 @@ Proof.
   f_equal. apply IH. assumption.
 Qed.
 
+(* the clocked blocks of the two designs have the same sensitivity lists (register by register, array by array) *)
+Theorem design_eqb_clocking s d1 d2 : design_eqb s d1 d2 = true -> clocking d1 = clocking d2.
+Proof. intros H. unfold design_eqb in H. apply andb_prop in H. destruct H as [_ H]. apply clocking_eqb_sound. exact H. Qed.
+
 Theorem design_eqb_sound e s d1 d2 : agrees e s -> design_eqb s d1 d2 = true -> same_at e d1 d2.
 Proof.
-  intros A H. unfold design_eqb in H. repeat (apply andb_prop in H; let H' := fresh "H" in destruct H as [H H']).
+  intros A H. unfold design_eqb in H. apply andb_prop in H. destruct H as [H _]. repeat (apply andb_prop in H; let H' := fresh "H" in destruct H as [H H']).
   unfold same_at. repeat split; [eapply pairs_ok_sound | eapply pairs_ok_sound | eapply pairs_ok_sound | eapply writes_ok_sound]; eauto.
 Qed.
 
@@ -90,6 +114,13 @@ Proof.
   specialize (H _ Hin). eapply design_eqb_sound; [|exact H]. apply sub2_agrees; reflexivity.
 Qed.
 
+Theorem proc_equiv_check_clocking d1 d2 : proc_equiv_check d1 d2 = true -> clocking d1 = clocking d2.
+Proof.
+  intros H. unfold proc_equiv_check in H. rewrite forallb_forall in H.
+  specialize (H 0 (in_bytes256 0 ltac:(lia))). rewrite forallb_forall in H. specialize (H 0 (or_introl eq_refl)).
+  exact (design_eqb_clocking _ _ _ H).
+Qed.
+
 (* diagnosis for the checks: the (byte, reset, signal) triples whose normal forms differ *)
 Fixpoint pairs_diff (s : string -> option Z) (l1 l2 : list (string * vexp)) : list string :=
   match l1, l2 with
@@ -103,6 +134,6 @@ Definition proc_equiv_failures (d1 d2 : design) : list (Z * (Z * list string)) :
   flat_map (fun k => flat_map (fun r =>
     let s := sub2 "i_f_data" "i_rst" k r in
     match (pairs_diff s (outputs d1) (outputs d2) ++ pairs_diff s (next d1) (next d2))%list with
-    | [] => if design_eqb s d1 d2 then [] else [(k, (r, ["wires/mem_writes"]))]
+    | [] => if design_eqb s d1 d2 then [] else [(k, (r, [if clocking_eqb (clocking d1) (clocking d2) then "wires/mem_writes" else "clocking (sensitivity lists)"]))]
     | l => [(k, (r, l))]
     end) [0; 1]) bytes256.
